@@ -1,0 +1,46 @@
+//go:build verif
+
+package verifhook
+
+// failpoint evaluates the gofail failpoint for the k-th hit of a site. The
+// `// gofail:` comments are inert until `gofail enable` rewrites a scratch copy
+// of this package; per-ordinal names keep a sleeping failpoint from serialising
+// other goroutines that reach the same site (gofail holds a per-name mutex
+// while a term sleeps).
+func failpoint(name string, k int) {
+	switch name {
+	case "regen.validated":
+		switch k {
+		case 1:
+			// gofail: var regenValidatedN1 struct{}
+		case 2:
+			// gofail: var regenValidatedN2 struct{}
+		case 3:
+			// gofail: var regenValidatedN3 struct{}
+		case 4:
+			// gofail: var regenValidatedN4 struct{}
+		}
+	case "regen.start":
+		switch k {
+		case 1:
+			// gofail: var regenStartN1 struct{}
+		case 2:
+			// gofail: var regenStartN2 struct{}
+		case 3:
+			// gofail: var regenStartN3 struct{}
+		case 4:
+			// gofail: var regenStartN4 struct{}
+		}
+	case "chdir.inside":
+		switch k {
+		case 1:
+			// gofail: var chdirInsideN1 struct{}
+		case 2:
+			// gofail: var chdirInsideN2 struct{}
+		case 3:
+			// gofail: var chdirInsideN3 struct{}
+		case 4:
+			// gofail: var chdirInsideN4 struct{}
+		}
+	}
+}
